@@ -22,8 +22,9 @@
 (***************************************************************************)
 EXTENDS Varint, TLAPS
 
-MaxU64 == 18446744073709551615
-NU64   == 0..MaxU64
+(* The u64 range.  tlapm reads numerals into 63-bit machine integers, so 2^64 - 1 cannot be written   *)
+(* as a literal; "v < 2^64" is stated as "v \div 2^32 < 2^32", which is the same set of naturals.      *)
+NU64   == {v \in Nat : v \div 4294967296 <= 4294967295}
 Val(d) == d[1] * 281474976710656 + d[2] * 4294967296 + d[3] * 65536 + d[4]
 
 (* ---------------------------------------------------------------- Part 1 *)
@@ -76,29 +77,904 @@ NDec(b) ==
     ELSE ErrMarker(f)
 
 (* ---------------------------------------------------------------- Part 2 *)
-(* one lemma per encoding case *)
-LEMMA RT1 == \A v \in 0..240 : NDec(NEnc(v)) = NOk(v, 1) /\ NLenOf(v) = 1
-  BY DEF NDec, NEnc, NOk, NLenOf
+(* Arithmetic facts.  Every one is linear integer arithmetic with constant divisors; they are kept  *)
+(* small and separate because the SMT back end is given the linear logic UFLIA (--smt-logic UFLIA). *)
+LEMMA DD1 == \A v \in Nat : (v \div 256) \div 256 = v \div 65536  BY SMTT(30)
+LEMMA DD2 == \A v \in Nat : (v \div 65536) \div 256 = v \div 16777216  BY SMTT(30)
+LEMMA DD3 == \A v \in Nat : (v \div 16777216) \div 256 = v \div 4294967296  BY SMTT(30)
+LEMMA DD4 == \A v \in Nat : (v \div 4294967296) \div 256 = v \div 1099511627776  BY SMTT(30)
+LEMMA DD5 == \A v \in Nat : (v \div 1099511627776) \div 256 = v \div 281474976710656  BY SMTT(30)
+LEMMA DD6 == \A v \in Nat : (v \div 281474976710656) \div 256 = v \div 72057594037927936  BY SMTT(30)
+LEMMA Step == \A q \in Nat : q = ((q \div 256) * 256) + (q % 256) /\ (q % 256) \in 0..255 /\ (q \div 256) \in Nat
+  BY SMTT(30)
+LEMMA ModSmall == \A q \in 0..255 : (q % 256) = q
+  BY SMTT(30)
+LEMMA Top9 == \A q4, q5, q6, q7 \in Nat, r4, r5, r6 \in 0..255 :
+    (q4 <= 4294967295 /\ q4 = (q5 * 256) + r4 /\ q5 = (q6 * 256) + r5 /\ q6 = (q7 * 256) + r6) => q7 <= 255
+  BY SMTT(30)
+LEMMA Chain9 == \A v, q1, q2, q3, q4, q5, q6, q7 \in Nat, r0, r1, r2, r3, r4, r5, r6 \in 0..255 :
+    (/\ v = (q1 * 256) + r0 /\ q1 = (q2 * 256) + r1 /\ q2 = (q3 * 256) + r2 /\ q3 = (q4 * 256) + r3
+     /\ q4 = (q5 * 256) + r4 /\ q5 = (q6 * 256) + r5 /\ q6 = (q7 * 256) + r6)
+    => q7 * 72057594037927936 + r6 * 281474976710656 + r5 * 1099511627776 + r4 * 4294967296
+       + r3 * 16777216 + r2 * 65536 + r1 * 256 + r0 = v
+  BY SMTT(30)
+LEMMA Chain5 == \A v, q1, q2, q3 \in Nat, r0, r1, r2 \in 0..255 :
+    (v = (q1 * 256) + r0 /\ q1 = (q2 * 256) + r1 /\ q2 = (q3 * 256) + r2)
+    => q3 * 16777216 + r2 * 65536 + r1 * 256 + r0 = v
+  BY SMTT(30)
+LEMMA Top5 == \A v, q1, q2, q3 \in Nat, r0, r1, r2 \in 0..255 :
+    (v = (q1 * 256) + r0 /\ q1 = (q2 * 256) + r1 /\ q2 = (q3 * 256) + r2 /\ v <= 4294967295) => q3 <= 255
+  BY SMTT(30)
+LEMMA Top4 == \A v, q1, q2, q3 \in Nat, r0, r1, r2 \in 0..255 :
+    (v = (q1 * 256) + r0 /\ q1 = (q2 * 256) + r1 /\ q2 = (q3 * 256) + r2 /\ v <= 16777215) => q3 <= 0
+  BY SMTT(30)
+LEMMA Top3 == \A v, q1, q2 \in Nat, r0, r1 \in 0..255 :
+    (v = (q1 * 256) + r0 /\ q1 = (q2 * 256) + r1 /\ v <= 65535) => q2 <= 0
+  BY SMTT(30)
 
-LEMMA RT2 == \A v \in 241..2287 : NDec(NEnc(v)) = NOk(v, 2) /\ NLenOf(v) = 2
-  BY DEF NDec, NEnc, NOk, NLenOf
-
-LEMMA RT3 == \A v \in 2288..67823 : NDec(NEnc(v)) = NOk(v, 3) /\ NLenOf(v) = 3
-  BY DEF NDec, NEnc, NOk, NLenOf
-
-LEMMA RT4 == \A v \in 67824..16777215 : NDec(NEnc(v)) = NOk(v, 4) /\ NLenOf(v) = 4
-  BY DEF NDec, NEnc, NOk, NLenOf
-
-LEMMA RT5 == \A v \in 16777216..4294967295 : NDec(NEnc(v)) = NOk(v, 5) /\ NLenOf(v) = 5
-  BY DEF NDec, NEnc, NOk, NLenOf
-
-LEMMA RT9 == \A v \in 4294967296..MaxU64 : NDec(NEnc(v)) = NOk(v, 9) /\ NLenOf(v) = 9
-  BY DEF NDec, NEnc, NOk, NLenOf, MaxU64
-
-THEOREM RoundTrip == \A v \in NU64 : NDec(NEnc(v)) = NOk(v, NLenOf(v))
+(* the eight bytes of the 9-byte form are the base-256 digits of v *)
+LEMMA Bytes9 == \A v \in NU64 :
+   /\ ((v \div 72057594037927936) % 256) * 72057594037927936 + ((v \div 281474976710656) % 256) * 281474976710656
+      + ((v \div 1099511627776) % 256) * 1099511627776 + ((v \div 4294967296) % 256) * 4294967296
+      + ((v \div 16777216) % 256) * 16777216 + ((v \div 65536) % 256) * 65536 + ((v \div 256) % 256) * 256 + (v % 256) = v
+   /\ ((v \div 72057594037927936) % 256) \in Byte /\ ((v \div 281474976710656) % 256) \in Byte
+   /\ ((v \div 1099511627776) % 256) \in Byte /\ ((v \div 4294967296) % 256) \in Byte
+   /\ ((v \div 16777216) % 256) \in Byte /\ ((v \div 65536) % 256) \in Byte
+   /\ ((v \div 256) % 256) \in Byte /\ (v % 256) \in Byte
 <1> TAKE v \in NU64
-<1>1. \/ v \in 0..240 \/ v \in 241..2287 \/ v \in 2288..67823 \/ v \in 67824..16777215
-      \/ v \in 16777216..4294967295 \/ v \in 4294967296..MaxU64
-  BY DEF NU64, MaxU64
-<1> QED BY <1>1, RT1, RT2, RT3, RT4, RT5, RT9
+<1> DEFINE q1 == v \div 256
+<1> DEFINE q2 == v \div 65536
+<1> DEFINE q3 == v \div 16777216
+<1> DEFINE q4 == v \div 4294967296
+<1> DEFINE q5 == v \div 1099511627776
+<1> DEFINE q6 == v \div 281474976710656
+<1> DEFINE q7 == v \div 72057594037927936
+<1>0. v \in Nat /\ q4 <= 4294967295 BY DEF NU64
+<1>1. q1 \in Nat /\ v = (q1 * 256) + (v % 256) /\ (v % 256) \in 0..255 BY <1>0, Step
+<1>2. q2 \in Nat /\ q1 = (q2 * 256) + (q1 % 256) /\ (q1 % 256) \in 0..255 BY <1>0, <1>1, Step, DD1
+<1>3. q3 \in Nat /\ q2 = (q3 * 256) + (q2 % 256) /\ (q2 % 256) \in 0..255 BY <1>0, <1>2, Step, DD2
+<1>4. q4 \in Nat /\ q3 = (q4 * 256) + (q3 % 256) /\ (q3 % 256) \in 0..255 BY <1>0, <1>3, Step, DD3
+<1>5. q5 \in Nat /\ q4 = (q5 * 256) + (q4 % 256) /\ (q4 % 256) \in 0..255 BY <1>0, <1>4, Step, DD4
+<1>6. q6 \in Nat /\ q5 = (q6 * 256) + (q5 % 256) /\ (q5 % 256) \in 0..255 BY <1>0, <1>5, Step, DD5
+<1>7. q7 \in Nat /\ q6 = (q7 * 256) + (q6 % 256) /\ (q6 % 256) \in 0..255 BY <1>0, <1>6, Step, DD6
+<1>8. q7 <= 255 /\ (q7 % 256) = q7
+  <2> HIDE DEF q1, q2, q3, q4, q5, q6, q7
+  <2>1. q7 <= 255 BY <1>0, <1>4, <1>5, <1>6, <1>7, Top9, SMTT(30)
+  <2> QED BY <2>1, <1>7, ModSmall, SMTT(30)
+<1> HIDE DEF q1, q2, q3, q4, q5, q6, q7
+<1>9. (q7 % 256) * 72057594037927936 + (q6 % 256) * 281474976710656 + (q5 % 256) * 1099511627776
+      + (q4 % 256) * 4294967296 + (q3 % 256) * 16777216 + (q2 % 256) * 65536 + (q1 % 256) * 256 + (v % 256) = v
+  BY <1>0, <1>1, <1>2, <1>3, <1>4, <1>5, <1>6, <1>7, <1>8, Chain9, SMTT(30)
+<1>10. (q7 % 256) \in Byte /\ (q6 % 256) \in Byte /\ (q5 % 256) \in Byte /\ (q4 % 256) \in Byte
+       /\ (q3 % 256) \in Byte /\ (q2 % 256) \in Byte /\ (q1 % 256) \in Byte /\ (v % 256) \in Byte
+  BY <1>1, <1>2, <1>3, <1>4, <1>5, <1>6, <1>7, <1>8, SMTT(30) DEF Byte
+<1> QED BY <1>9, <1>10 DEF q1, q2, q3, q4, q5, q6, q7
+
+(* the four low bytes; for v < 2^32 they are all of v, for v < 2^24 the top one is 0 *)
+LEMMA Bytes5 == \A v \in Nat :
+   /\ ((v \div 16777216) % 256) \in Byte /\ ((v \div 65536) % 256) \in Byte
+   /\ ((v \div 256) % 256) \in Byte /\ (v % 256) \in Byte
+   /\ v <= 4294967295 =>
+        ((v \div 16777216) % 256) * 16777216 + ((v \div 65536) % 256) * 65536 + ((v \div 256) % 256) * 256 + (v % 256) = v
+   /\ v <= 16777215 => ((v \div 65536) % 256) * 65536 + ((v \div 256) % 256) * 256 + (v % 256) = v
+   /\ v <= 65535 => ((v \div 256) % 256) * 256 + (v % 256) = v
+<1> TAKE v \in Nat
+<1> DEFINE q1 == v \div 256
+<1> DEFINE q2 == v \div 65536
+<1> DEFINE q3 == v \div 16777216
+<1>1. q1 \in Nat /\ v = (q1 * 256) + (v % 256) /\ (v % 256) \in 0..255 BY Step, SMTT(30)
+<1>2. q2 \in Nat /\ q1 = (q2 * 256) + (q1 % 256) /\ (q1 % 256) \in 0..255 BY <1>1, Step, DD1
+<1>3. q3 \in Nat /\ q2 = (q3 * 256) + (q2 % 256) /\ (q2 % 256) \in 0..255 BY <1>2, Step, DD2
+<1>4. (q3 % 256) \in 0..255 BY <1>3, Step
+<1> HIDE DEF q1, q2, q3
+<1>5. q3 * 16777216 + (q2 % 256) * 65536 + (q1 % 256) * 256 + (v % 256) = v
+  BY <1>1, <1>2, <1>3, Chain5, SMTT(30)
+<1>5a. v <= 4294967295 => q3 <= 255 BY <1>1, <1>2, <1>3, Top5, SMTT(30)
+<1>5b. v <= 16777215 => q3 <= 0 BY <1>1, <1>2, <1>3, Top4, SMTT(30)
+<1>5c. v <= 65535 => q2 <= 0 BY <1>1, <1>2, Top3, SMTT(30)
+<1>6. v <= 4294967295 => (q3 % 256) = q3 BY <1>3, <1>5a, ModSmall, SMTT(30)
+<1>7. v <= 16777215 => (q3 % 256) <= 0 BY <1>3, <1>5b, <1>6, SMTT(30)
+<1>8. v <= 65535 => (q2 % 256) <= 0 BY <1>2, <1>5c, ModSmall, SMTT(30)
+<1>9a. (q3 % 256) \in Byte /\ (q2 % 256) \in Byte /\ (q1 % 256) \in Byte /\ (v % 256) \in Byte
+  BY <1>1, <1>2, <1>3, <1>4, SMTT(30) DEF Byte
+<1>9b. v <= 4294967295 => (q3 % 256) * 16777216 + (q2 % 256) * 65536 + (q1 % 256) * 256 + (v % 256) = v
+  BY <1>5, <1>6, SMTT(30)
+<1>9c. v <= 16777215 => (q2 % 256) * 65536 + (q1 % 256) * 256 + (v % 256) = v
+  BY <1>3, <1>5, <1>5b, SMTT(30)
+<1>9d. v <= 65535 => (q1 % 256) * 256 + (v % 256) = v
+  BY <1>1, <1>2, <1>5c, SMTT(30)
+<1> QED BY <1>9a, <1>9b, <1>9c, <1>9d DEF q1, q2, q3
+
+(* ------------------------------------------------------------------------------------------------ *)
+(* what the encoder writes, case by case *)
+LEMMA Enc1 == \A v \in Nat : v <= 240 => NEnc(v) = <<v>>
+  BY SMTT(60) DEF NEnc
+LEMMA Enc2 == \A v \in Nat : (v > 240 /\ v <= 2287) =>
+                 NEnc(v) = << (((v - 240) \div 256) + 241) % 256, (v - 240) % 256 >>
+  BY SMTT(60) DEF NEnc
+LEMMA Enc3 == \A v \in Nat : (v > 2287 /\ v <= 67823) =>
+                 NEnc(v) = << 249, ((v - 2288) \div 256) % 256, (v - 2288) % 256 >>
+  BY SMTT(60) DEF NEnc
+LEMMA Enc4 == \A v \in Nat : (v > 67823 /\ v <= 16777215) =>
+                 NEnc(v) = << 250, (v \div 65536) % 256, (v \div 256) % 256, v % 256 >>
+  BY SMTT(60) DEF NEnc
+LEMMA Enc5 == \A v \in Nat : (v > 16777215 /\ v <= 4294967295) =>
+                 NEnc(v) = << 251, (v \div 16777216) % 256, (v \div 65536) % 256, (v \div 256) % 256, v % 256 >>
+  BY SMTT(60) DEF NEnc
+LEMMA Enc9 == \A v \in Nat : v > 4294967295 =>
+                 NEnc(v) = << 255, (v \div 72057594037927936) % 256, (v \div 281474976710656) % 256,
+                              (v \div 1099511627776) % 256,     (v \div 4294967296) % 256,
+                              (v \div 16777216) % 256,          (v \div 65536) % 256,
+                              (v \div 256) % 256,               v % 256 >>
+  BY SMTT(60) DEF NEnc
+
+(* what the decoder returns, by length and marker *)
+LEMMA DecE == \A b \in Seq(Byte) : Len(b) = 0 => NDec(b) = ErrEmpty
+  BY SMTT(60) DEF NDec, Byte
+LEMMA Dec1 == \A b \in Seq(Byte) : (Len(b) >= 1 /\ b[1] <= 240) => NDec(b) = NOk(b[1], 1)
+  BY SMTT(60) DEF NDec, Byte
+LEMMA Dec2 == \A b \in Seq(Byte) : (Len(b) >= 1 /\ b[1] >= 241 /\ b[1] <= 248) =>
+                 NDec(b) = IF Len(b) < 2 THEN ErrTrunc(2) ELSE NOk(240 + (b[1] - 241) * 256 + b[2], 2)
+  BY SMTT(60) DEF NDec, Byte
+LEMMA Dec3 == \A b \in Seq(Byte) : (Len(b) >= 1 /\ b[1] = 249) =>
+                 NDec(b) = IF Len(b) < 3 THEN ErrTrunc(3) ELSE NOk(2288 + b[2] * 256 + b[3], 3)
+  BY SMTT(60) DEF NDec, Byte
+LEMMA Dec4 == \A b \in Seq(Byte) : (Len(b) >= 1 /\ b[1] = 250) =>
+                 NDec(b) = IF Len(b) < 4 THEN ErrTrunc(4) ELSE NOk(b[2] * 65536 + b[3] * 256 + b[4], 4)
+  BY SMTT(60) DEF NDec, Byte
+LEMMA Dec5 == \A b \in Seq(Byte) : (Len(b) >= 1 /\ b[1] = 251) =>
+                 NDec(b) = IF Len(b) < 5 THEN ErrTrunc(5)
+                           ELSE NOk(b[2] * 16777216 + b[3] * 65536 + b[4] * 256 + b[5], 5)
+  BY SMTT(60) DEF NDec, Byte
+LEMMA Dec9 == \A b \in Seq(Byte) : (Len(b) >= 1 /\ b[1] = 255) =>
+                 NDec(b) = IF Len(b) < 9 THEN ErrTrunc(9)
+                           ELSE NOk(b[2] * 72057594037927936 + b[3] * 281474976710656 + b[4] * 1099511627776
+                                    + b[5] * 4294967296 + b[6] * 16777216 + b[7] * 65536 + b[8] * 256 + b[9], 9)
+  BY SMTT(60) DEF NDec, Byte
+LEMMA DecM == \A b \in Seq(Byte) : (Len(b) >= 1 /\ b[1] >= 252 /\ b[1] <= 254) => NDec(b) = ErrMarker(b[1])
+  BY SMTT(60) DEF NDec, Byte
+
+(* ------------------------------------------------------------------------------------------------ *)
+(* round trip, one lemma per encoding case                                                           *)
+RTAt(v, k) == /\ NDec(NEnc(v)) = NOk(v, k) /\ NLenOf(v) = k /\ Len(NEnc(v)) = k /\ NEnc(v) \in Seq(Byte)
+
+LEMMA RT1 == \A v \in Nat : v <= 240 => RTAt(v, 1)
+<1> TAKE v \in Nat
+<1> HAVE v <= 240
+<1>1. NEnc(v) = <<v>> BY Enc1, SMTT(30)
+<1>2. <<v>> \in Seq(Byte) /\ Len(<<v>>) = 1 /\ <<v>>[1] = v BY SMTT(30) DEF Byte
+<1>3. NDec(<<v>>) = NOk(v, 1) BY <1>2, Dec1, SMTT(30)
+<1>4. NLenOf(v) = 1 BY SMTT(30) DEF NLenOf
+<1> QED BY <1>1, <1>2, <1>3, <1>4, SMTT(30) DEF RTAt
+
+LEMMA Arith2 == \A v \in Nat : (v > 240 /\ v <= 2287) =>
+                   /\ ((((v - 240) \div 256) + 241) % 256) \in 241..248
+                   /\ ((v - 240) % 256) \in 0..255
+                   /\ 240 + (((((v - 240) \div 256) + 241) % 256) - 241) * 256 + ((v - 240) % 256) = v
+<1> TAKE v \in Nat
+<1> HAVE v > 240 /\ v <= 2287
+<1> DEFINE w == v - 240
+<1> DEFINE q == w \div 256
+<1>1. w \in Nat /\ w <= 2047 /\ v = w + 240 BY SMTT(30)
+<1>2. q \in Nat /\ w = (q * 256) + (w % 256) /\ (w % 256) \in 0..255 BY <1>1, Step, SMTT(30)
+<1> HIDE DEF w, q
+<1>3. q <= 7 BY <1>1, <1>2, SMTT(30)
+<1>4. ((q + 241) % 256) = q + 241
+  <2>1. (q + 241) \in 0..255 BY <1>2, <1>3, SMTT(30)
+  <2> QED BY <2>1, ModSmall, SMTT(30)
+<1>5. /\ ((q + 241) % 256) \in 241..248 /\ (w % 256) \in 0..255
+      /\ 240 + (((q + 241) % 256) - 241) * 256 + (w % 256) = v
+  BY <1>1, <1>2, <1>3, <1>4, SMTT(30)
+<1> QED BY <1>5, SMTT(30) DEF w, q
+
+LEMMA RT2 == \A v \in Nat : (v > 240 /\ v <= 2287) => RTAt(v, 2)
+<1> TAKE v \in Nat
+<1> HAVE v > 240 /\ v <= 2287
+<1> DEFINE x == (((v - 240) \div 256) + 241) % 256
+<1> DEFINE y == (v - 240) % 256
+<1>1. NEnc(v) = <<x, y>> BY Enc2, SMTT(30)
+<1>2. x \in 241..248 /\ y \in 0..255 /\ 240 + (x - 241) * 256 + y = v BY Arith2, SMTT(30)
+<1> HIDE DEF x, y
+<1>3. <<x, y>> \in Seq(Byte) /\ Len(<<x, y>>) = 2 /\ <<x, y>>[1] = x /\ <<x, y>>[2] = y
+  BY <1>2, SMTT(30) DEF Byte
+<1>4. NDec(<<x, y>>) = NOk(240 + (x - 241) * 256 + y, 2) BY <1>2, <1>3, Dec2, SMTT(30)
+<1>5. NLenOf(v) = 2 BY SMTT(30) DEF NLenOf
+<1> QED BY <1>1, <1>2, <1>3, <1>4, <1>5, SMTT(30) DEF RTAt
+
+LEMMA RT3 == \A v \in Nat : (v > 2287 /\ v <= 67823) => RTAt(v, 3)
+<1> TAKE v \in Nat
+<1> HAVE v > 2287 /\ v <= 67823
+<1> DEFINE w == v - 2288
+<1> DEFINE x == (w \div 256) % 256
+<1> DEFINE y == w % 256
+<1>0. w \in Nat /\ w <= 65535 /\ v = 2288 + w BY SMTT(30)
+<1>1. NEnc(v) = <<249, x, y>> BY Enc3, SMTT(30)
+<1>2. x \in Byte /\ y \in Byte /\ (x * 256) + y = w BY <1>0, Bytes5, SMTT(30)
+<1> HIDE DEF w, x, y
+<1>3. /\ <<249, x, y>> \in Seq(Byte) /\ Len(<<249, x, y>>) = 3 /\ <<249, x, y>>[1] = 249
+      /\ <<249, x, y>>[2] = x /\ <<249, x, y>>[3] = y
+  BY <1>2, SMTT(30) DEF Byte
+<1>4. NDec(<<249, x, y>>) = NOk(2288 + x * 256 + y, 3) BY <1>3, Dec3, SMTT(30)
+<1>5. NLenOf(v) = 3 BY SMTT(30) DEF NLenOf
+<1>6. 2288 + x * 256 + y = v BY <1>0, <1>2, SMTT(30) DEF Byte
+<1> QED BY <1>1, <1>3, <1>4, <1>5, <1>6, SMTT(30) DEF RTAt
+
+LEMMA RT4 == \A v \in Nat : (v > 67823 /\ v <= 16777215) => RTAt(v, 4)
+<1> TAKE v \in Nat
+<1> HAVE v > 67823 /\ v <= 16777215
+<1> DEFINE x == (v \div 65536) % 256
+<1> DEFINE y == (v \div 256) % 256
+<1> DEFINE z == v % 256
+<1>1. NEnc(v) = <<250, x, y, z>> BY Enc4, SMTT(30)
+<1>2. x \in Byte /\ y \in Byte /\ z \in Byte /\ (x * 65536) + (y * 256) + z = v BY Bytes5, SMTT(30)
+<1> HIDE DEF x, y, z
+<1>3. /\ <<250, x, y, z>> \in Seq(Byte) /\ Len(<<250, x, y, z>>) = 4 /\ <<250, x, y, z>>[1] = 250
+      /\ <<250, x, y, z>>[2] = x /\ <<250, x, y, z>>[3] = y /\ <<250, x, y, z>>[4] = z
+  BY <1>2, SMTT(30) DEF Byte
+<1>4. NDec(<<250, x, y, z>>) = NOk(x * 65536 + y * 256 + z, 4) BY <1>3, Dec4, SMTT(30)
+<1>5. NLenOf(v) = 4 BY SMTT(30) DEF NLenOf
+<1> QED BY <1>1, <1>2, <1>3, <1>4, <1>5, SMTT(30) DEF RTAt
+
+LEMMA RT5 == \A v \in Nat : (v > 16777215 /\ v <= 4294967295) => RTAt(v, 5)
+<1> TAKE v \in Nat
+<1> HAVE v > 16777215 /\ v <= 4294967295
+<1> DEFINE x == (v \div 16777216) % 256
+<1> DEFINE y == (v \div 65536) % 256
+<1> DEFINE z == (v \div 256) % 256
+<1> DEFINE u == v % 256
+<1>1. NEnc(v) = <<251, x, y, z, u>> BY Enc5, SMTT(30)
+<1>2. x \in Byte /\ y \in Byte /\ z \in Byte /\ u \in Byte
+      /\ (x * 16777216) + (y * 65536) + (z * 256) + u = v BY Bytes5, SMTT(30)
+<1> HIDE DEF x, y, z, u
+<1>3. /\ <<251, x, y, z, u>> \in Seq(Byte) /\ Len(<<251, x, y, z, u>>) = 5 /\ <<251, x, y, z, u>>[1] = 251
+      /\ <<251, x, y, z, u>>[2] = x /\ <<251, x, y, z, u>>[3] = y /\ <<251, x, y, z, u>>[4] = z
+      /\ <<251, x, y, z, u>>[5] = u
+  BY <1>2, SMTT(30) DEF Byte
+<1>4. NDec(<<251, x, y, z, u>>) = NOk(x * 16777216 + y * 65536 + z * 256 + u, 5) BY <1>3, Dec5, SMTT(30)
+<1>5. NLenOf(v) = 5 BY SMTT(30) DEF NLenOf
+<1> QED BY <1>1, <1>2, <1>3, <1>4, <1>5, SMTT(30) DEF RTAt
+
+LEMMA RT9 == \A v \in NU64 : v > 4294967295 => RTAt(v, 9)
+<1> TAKE v \in NU64
+<1> HAVE v > 4294967295
+<1> DEFINE x1 == (v \div 72057594037927936) % 256
+<1> DEFINE x2 == (v \div 281474976710656) % 256
+<1> DEFINE x3 == (v \div 1099511627776) % 256
+<1> DEFINE x4 == (v \div 4294967296) % 256
+<1> DEFINE x5 == (v \div 16777216) % 256
+<1> DEFINE x6 == (v \div 65536) % 256
+<1> DEFINE x7 == (v \div 256) % 256
+<1> DEFINE x8 == v % 256
+<1> DEFINE e == <<255, x1, x2, x3, x4, x5, x6, x7, x8>>
+<1>0. v \in Nat BY SMTT(30) DEF NU64
+<1>1. NEnc(v) = e BY <1>0, Enc9, SMTT(30)
+<1>2. /\ x1 \in Byte /\ x2 \in Byte /\ x3 \in Byte /\ x4 \in Byte /\ x5 \in Byte /\ x6 \in Byte /\ x7 \in Byte /\ x8 \in Byte
+      /\ x1 * 72057594037927936 + x2 * 281474976710656 + x3 * 1099511627776 + x4 * 4294967296
+         + x5 * 16777216 + x6 * 65536 + x7 * 256 + x8 = v
+  BY Bytes9, SMTT(30)
+<1> HIDE DEF x1, x2, x3, x4, x5, x6, x7, x8
+<1>3a. Len(e) = 9 /\ e[1] = 255 /\ e[2] = x1 /\ e[3] = x2 /\ e[4] = x3 BY SMTT(30)
+<1>3b. e[5] = x4 /\ e[6] = x5 /\ e[7] = x6 /\ e[8] = x7 /\ e[9] = x8 BY SMTT(30)
+<1>3c. e \in Seq(Byte)
+  <2>1. 255 \in Byte BY SMTT(30) DEF Byte
+  <2> QED BY <2>1, <1>2, SMTT(30)
+<1>3. /\ e \in Seq(Byte) /\ Len(e) = 9 /\ e[1] = 255 /\ e[2] = x1 /\ e[3] = x2 /\ e[4] = x3 /\ e[5] = x4
+      /\ e[6] = x5 /\ e[7] = x6 /\ e[8] = x7 /\ e[9] = x8
+  BY <1>3a, <1>3b, <1>3c, SMTT(30)
+<1> HIDE DEF e
+<1>4. NDec(e) = NOk(x1 * 72057594037927936 + x2 * 281474976710656 + x3 * 1099511627776 + x4 * 4294967296
+                    + x5 * 16777216 + x6 * 65536 + x7 * 256 + x8, 9)
+  BY <1>3, Dec9, SMTT(30)
+<1>5. NLenOf(v) = 9 BY <1>0, SMTT(30) DEF NLenOf
+<1> QED BY <1>1, <1>2, <1>3, <1>4, <1>5, SMTT(30) DEF RTAt
+
+LEMMA RTAll == \A v \in NU64 : RTAt(v, NLenOf(v))
+<1> TAKE v \in NU64
+<1>0. v \in Nat BY SMTT(30) DEF NU64
+<1>1. \/ v <= 240 \/ (v > 240 /\ v <= 2287) \/ (v > 2287 /\ v <= 67823) \/ (v > 67823 /\ v <= 16777215)
+      \/ (v > 16777215 /\ v <= 4294967295) \/ v > 4294967295
+  BY <1>0, SMTT(30)
+<1>2. \E k \in {1, 2, 3, 4, 5, 9} : RTAt(v, k) BY <1>0, <1>1, RT1, RT2, RT3, RT4, RT5, RT9, SMTT(30)
+<1> QED BY <1>2, SMTT(30) DEF RTAt
+
+(* ---- C27, first sentence: decoding an encoding returns the value and consumes varint_len(v) bytes *)
+THEOREM RoundTrip == \A v \in NU64 : NDec(NEnc(v)) = NOk(v, NLenOf(v))
+  BY RTAll, SMTT(30) DEF RTAt
+
+THEOREM CanonicalLen == \A v \in NU64 : /\ Len(NEnc(v)) = NLenOf(v)
+                                        /\ NEnc(v) \in Seq(Byte)
+                                        /\ NLenOf(v) \in {1, 2, 3, 4, 5, 9}
+<1> TAKE v \in NU64
+<1>1. NLenOf(v) \in {1, 2, 3, 4, 5, 9} BY SMTT(30) DEF NLenOf, NU64
+<1> QED BY <1>1, RTAll, SMTT(30) DEF RTAt
+
+(* ---- C27, second sentence: every byte string decodes to an error or to a u64, consuming at most    *)
+(* ---- Len(b) bytes (and never more than 9)                                                           *)
+DecResultOK(b, r) ==
+  \/ r = ErrEmpty /\ Len(b) = 0
+  \/ \E k \in {2, 3, 4, 5, 9} : r = ErrTrunc(k) /\ Len(b) < k /\ Len(b) >= 1
+  \/ \E f \in 252..254 : r = ErrMarker(f) /\ Len(b) >= 1 /\ b[1] = f
+  \/ \E v \in NU64, n \in {1, 2, 3, 4, 5, 9} : r = NOk(v, n) /\ n <= Len(b)
+
+LEMMA SmallInU64 == \A v \in Nat : v <= 4294967295 => v \in NU64
+  BY SMTT(30) DEF NU64
+
+THEOREM DecTotal == \A b \in Seq(Byte) : DecResultOK(b, NDec(b))
+<1> TAKE b \in Seq(Byte)
+<1>0. Len(b) \in Nat /\ \A i \in 1..Len(b) : b[i] \in Byte BY SMTT(30)
+<1>1. CASE Len(b) = 0
+  BY <1>1, DecE, SMTT(30) DEF DecResultOK
+<1>2. CASE Len(b) >= 1 /\ b[1] <= 240
+  <2>1. NDec(b) = NOk(b[1], 1) BY <1>2, Dec1, SMTT(30)
+  <2>2. b[1] \in NU64 BY <1>0, <1>2, SmallInU64, SMTT(30) DEF Byte
+  <2> QED BY <1>2, <2>1, <2>2, SMTT(30) DEF DecResultOK
+<1>3. CASE Len(b) >= 1 /\ b[1] >= 241 /\ b[1] <= 248
+  <2>1. CASE Len(b) < 2
+    <3>1. NDec(b) = ErrTrunc(2) BY <1>3, <2>1, Dec2, SMTT(30)
+    <3> QED BY <3>1, <1>3, <2>1, SMTT(30) DEF DecResultOK
+  <2>2. CASE Len(b) >= 2
+    <3>1. NDec(b) = NOk(240 + (b[1] - 241) * 256 + b[2], 2) BY <1>0, <1>3, <2>2, Dec2, SMTT(30)
+    <3>2. (240 + (b[1] - 241) * 256 + b[2]) \in NU64
+      <4>1. b[1] \in Byte /\ b[2] \in Byte BY <1>0, <2>2, SMTT(30)
+      <4>2. (240 + (b[1] - 241) * 256 + b[2]) \in Nat /\ (240 + (b[1] - 241) * 256 + b[2]) <= 4294967295
+        BY <4>1, <1>3, SMTT(30) DEF Byte
+      <4> QED BY <4>2, SmallInU64, SMTT(30)
+    <3> QED BY <3>1, <3>2, <2>2, SMTT(30) DEF DecResultOK
+  <2> QED BY <1>0, <2>1, <2>2, SMTT(30)
+<1>4. CASE Len(b) >= 1 /\ b[1] = 249
+  <2>1. CASE Len(b) < 3
+    <3>1. NDec(b) = ErrTrunc(3) BY <1>4, <2>1, Dec3, SMTT(30)
+    <3> QED BY <3>1, <1>4, <2>1, SMTT(30) DEF DecResultOK
+  <2>2. CASE Len(b) >= 3
+    <3>1. NDec(b) = NOk(2288 + b[2] * 256 + b[3], 3) BY <1>0, <1>4, <2>2, Dec3, SMTT(30)
+    <3>2. (2288 + b[2] * 256 + b[3]) \in NU64
+      <4>1. b[2] \in Byte /\ b[3] \in Byte BY <1>0, <2>2, SMTT(30)
+      <4>2. (2288 + b[2] * 256 + b[3]) \in Nat /\ (2288 + b[2] * 256 + b[3]) <= 4294967295
+        BY <4>1, SMTT(30) DEF Byte
+      <4> QED BY <4>2, SmallInU64, SMTT(30)
+    <3> QED BY <3>1, <3>2, <2>2, SMTT(30) DEF DecResultOK
+  <2> QED BY <1>0, <2>1, <2>2, SMTT(30)
+<1>5. CASE Len(b) >= 1 /\ b[1] = 250
+  <2>1. CASE Len(b) < 4
+    <3>1. NDec(b) = ErrTrunc(4) BY <1>5, <2>1, Dec4, SMTT(30)
+    <3> QED BY <3>1, <1>5, <2>1, SMTT(30) DEF DecResultOK
+  <2>2. CASE Len(b) >= 4
+    <3>1. NDec(b) = NOk(b[2] * 65536 + b[3] * 256 + b[4], 4) BY <1>0, <1>5, <2>2, Dec4, SMTT(30)
+    <3>2. (b[2] * 65536 + b[3] * 256 + b[4]) \in NU64
+      <4>1. b[2] \in Byte /\ b[3] \in Byte /\ b[4] \in Byte BY <1>0, <2>2, SMTT(30)
+      <4>2. (b[2] * 65536 + b[3] * 256 + b[4]) \in Nat /\ (b[2] * 65536 + b[3] * 256 + b[4]) <= 4294967295
+        BY <4>1, SMTT(30) DEF Byte
+      <4> QED BY <4>2, SmallInU64, SMTT(30)
+    <3> QED BY <3>1, <3>2, <2>2, SMTT(30) DEF DecResultOK
+  <2> QED BY <1>0, <2>1, <2>2, SMTT(30)
+<1>6. CASE Len(b) >= 1 /\ b[1] = 251
+  <2>1. CASE Len(b) < 5
+    <3>1. NDec(b) = ErrTrunc(5) BY <1>6, <2>1, Dec5, SMTT(30)
+    <3> QED BY <3>1, <1>6, <2>1, SMTT(30) DEF DecResultOK
+  <2>2. CASE Len(b) >= 5
+    <3>1. NDec(b) = NOk(b[2] * 16777216 + b[3] * 65536 + b[4] * 256 + b[5], 5) BY <1>0, <1>6, <2>2, Dec5, SMTT(30)
+    <3>2. (b[2] * 16777216 + b[3] * 65536 + b[4] * 256 + b[5]) \in NU64
+      <4>1. b[2] \in Byte /\ b[3] \in Byte /\ b[4] \in Byte /\ b[5] \in Byte BY <1>0, <2>2, SMTT(30)
+      <4>2. /\ (b[2] * 16777216 + b[3] * 65536 + b[4] * 256 + b[5]) \in Nat
+            /\ (b[2] * 16777216 + b[3] * 65536 + b[4] * 256 + b[5]) <= 4294967295
+        BY <4>1, SMTT(30) DEF Byte
+      <4> QED BY <4>2, SmallInU64, SMTT(30)
+    <3> QED BY <3>1, <3>2, <2>2, SMTT(30) DEF DecResultOK
+  <2> QED BY <1>0, <2>1, <2>2, SMTT(30)
+<1>7. CASE Len(b) >= 1 /\ b[1] = 255
+  <2>1. CASE Len(b) < 9
+    <3>1. NDec(b) = ErrTrunc(9) BY <1>7, <2>1, Dec9, SMTT(30)
+    <3> QED BY <3>1, <1>7, <2>1, SMTT(30) DEF DecResultOK
+  <2>2. CASE Len(b) >= 9
+    <3>1. NDec(b) = NOk(b[2] * 72057594037927936 + b[3] * 281474976710656 + b[4] * 1099511627776
+                        + b[5] * 4294967296 + b[6] * 16777216 + b[7] * 65536 + b[8] * 256 + b[9], 9)
+      BY <1>0, <1>7, <2>2, Dec9, SMTT(30)
+    <3>2. (b[2] * 72057594037927936 + b[3] * 281474976710656 + b[4] * 1099511627776
+           + b[5] * 4294967296 + b[6] * 16777216 + b[7] * 65536 + b[8] * 256 + b[9]) \in NU64
+      <4>1. b[2] \in Byte /\ b[3] \in Byte /\ b[4] \in Byte /\ b[5] \in Byte /\ b[6] \in Byte
+            /\ b[7] \in Byte /\ b[8] \in Byte /\ b[9] \in Byte BY <1>0, <2>2, SMTT(30)
+      <4> DEFINE hi == b[2] * 16777216 + b[3] * 65536 + b[4] * 256 + b[5]
+      <4> DEFINE lo == b[6] * 16777216 + b[7] * 65536 + b[8] * 256 + b[9]
+      <4>2. hi \in 0..4294967295 /\ lo \in 0..4294967295 BY <4>1, SMTT(30) DEF Byte
+      <4>3. b[2] * 72057594037927936 + b[3] * 281474976710656 + b[4] * 1099511627776
+            + b[5] * 4294967296 + b[6] * 16777216 + b[7] * 65536 + b[8] * 256 + b[9] = (hi * 4294967296) + lo
+        BY <4>1, SMTT(30) DEF Byte
+      <4> HIDE DEF hi, lo
+      <4>4. ((hi * 4294967296) + lo) \in Nat /\ ((hi * 4294967296) + lo) \div 4294967296 = hi
+        BY <4>2, SMTT(30)
+      <4> QED BY <4>2, <4>3, <4>4, SMTT(30) DEF NU64
+    <3> QED BY <3>1, <3>2, <2>2, SMTT(30) DEF DecResultOK
+  <2> QED BY <1>0, <2>1, <2>2, SMTT(30)
+<1>8. CASE Len(b) >= 1 /\ b[1] >= 252 /\ b[1] <= 254
+  <2>1. NDec(b) = ErrMarker(b[1]) BY <1>8, DecM, SMTT(30)
+  <2>2. b[1] \in 252..254 BY <1>0, <1>8, SMTT(30) DEF Byte
+  <2> QED BY <1>8, <2>1, <2>2, SMTT(30) DEF DecResultOK
+<1>9. \/ Len(b) = 0 \/ (Len(b) >= 1 /\ b[1] <= 240) \/ (Len(b) >= 1 /\ b[1] >= 241 /\ b[1] <= 248)
+      \/ (Len(b) >= 1 /\ b[1] = 249) \/ (Len(b) >= 1 /\ b[1] = 250) \/ (Len(b) >= 1 /\ b[1] = 251)
+      \/ (Len(b) >= 1 /\ b[1] = 255) \/ (Len(b) >= 1 /\ b[1] >= 252 /\ b[1] <= 254)
+  <2>1. Len(b) >= 1 => b[1] \in Byte BY <1>0, SMTT(30)
+  <2> QED BY <1>0, <2>1, SMTT(30) DEF Byte
+<1> QED BY <1>1, <1>2, <1>3, <1>4, <1>5, <1>6, <1>7, <1>8, <1>9, SMTT(30)
+
+(* ---- "without reading past the input": the result depends only on the bytes reported as consumed  *)
+LEMMA Fields == /\ \A v, n : NOk(v, n).ok = TRUE /\ NOk(v, n).n = n /\ NOk(v, n).val = v
+                /\ ErrEmpty.ok = FALSE
+                /\ \A k : ErrTrunc(k).ok = FALSE
+                /\ \A f : ErrMarker(f).ok = FALSE
+  BY SMTT(30) DEF NOk, ErrEmpty, ErrTrunc, ErrMarker
+
+THEOREM DecPrefix == \A b, c \in Seq(Byte) :
+                        (NDec(b).ok /\ Len(c) >= NDec(b).n /\ \A i \in 1..NDec(b).n : c[i] = b[i])
+                        => NDec(c) = NDec(b)
+<1> TAKE b, c \in Seq(Byte)
+<1> HAVE NDec(b).ok /\ Len(c) >= NDec(b).n /\ \A i \in 1..NDec(b).n : c[i] = b[i]
+<1>0. Len(b) \in Nat /\ Len(c) \in Nat /\ (Len(b) >= 1 => b[1] \in Byte) BY SMTT(30)
+<1>1. CASE Len(b) = 0
+  <2>1. NDec(b) = ErrEmpty BY <1>1, DecE, SMTT(30)
+  <2> QED BY <2>1, Fields, SMTT(30)
+<1>8. CASE Len(b) >= 1 /\ b[1] >= 252 /\ b[1] <= 254
+  <2>1. NDec(b) = ErrMarker(b[1]) BY <1>8, DecM, SMTT(30)
+  <2> QED BY <2>1, Fields, SMTT(30)
+<1>2. CASE Len(b) >= 1 /\ b[1] <= 240
+  <2>a. Len(b) >= 1 BY <1>2
+  <2>1. NDec(b) = NOk(b[1], 1) BY <1>0, <1>2, <2>a, Dec1, SMTT(30)
+  <2>2. NDec(b).n = 1 BY <2>1, Fields, SMTT(30)
+  <2>3. Len(c) >= 1 /\ c[1] = b[1] BY <2>2, SMTT(30)
+  <2>4. Len(c) >= 1 /\ c[1] <= 240 BY <2>3, <1>2, SMTT(30)
+  <2>5. NDec(c) = NOk(c[1], 1) BY <1>0, <2>3, <2>4, Dec1, SMTT(30)
+  <2>6. c[1] = b[1] BY <2>3, SMTT(30)
+  <2> QED BY <2>1, <2>5, <2>6, SMTT(30)
+<1>3. CASE Len(b) >= 1 /\ b[1] >= 241 /\ b[1] <= 248
+  <2>a. Len(b) >= 2
+    <3>1. CASE Len(b) < 2
+      <4>1. NDec(b) = ErrTrunc(2) BY <1>3, <3>1, Dec2, SMTT(30)
+      <4> QED BY <4>1, Fields, SMTT(30)
+    <3> QED BY <1>0, <3>1, SMTT(30)
+  <2>1. NDec(b) = NOk(240 + (b[1] - 241) * 256 + b[2], 2) BY <1>0, <1>3, <2>a, Dec2, SMTT(30)
+  <2>2. NDec(b).n = 2 BY <2>1, Fields, SMTT(30)
+  <2>3. Len(c) >= 2 /\ c[1] = b[1] /\ c[2] = b[2] BY <2>2, SMTT(30)
+  <2>4. Len(c) >= 1 /\ c[1] >= 241 /\ c[1] <= 248 BY <2>3, <1>3, SMTT(30)
+  <2>5. NDec(c) = NOk(240 + (c[1] - 241) * 256 + c[2], 2) BY <1>0, <2>3, <2>4, Dec2, SMTT(30)
+  <2>6. 240 + (c[1] - 241) * 256 + c[2] = 240 + (b[1] - 241) * 256 + b[2] BY <2>3, SMTT(30)
+  <2> QED BY <2>1, <2>5, <2>6, SMTT(30)
+<1>4. CASE Len(b) >= 1 /\ b[1] = 249
+  <2>a. Len(b) >= 3
+    <3>1. CASE Len(b) < 3
+      <4>1. NDec(b) = ErrTrunc(3) BY <1>4, <3>1, Dec3, SMTT(30)
+      <4> QED BY <4>1, Fields, SMTT(30)
+    <3> QED BY <1>0, <3>1, SMTT(30)
+  <2>1. NDec(b) = NOk(2288 + b[2] * 256 + b[3], 3) BY <1>0, <1>4, <2>a, Dec3, SMTT(30)
+  <2>2. NDec(b).n = 3 BY <2>1, Fields, SMTT(30)
+  <2>3. Len(c) >= 3 /\ c[1] = b[1] /\ c[2] = b[2] /\ c[3] = b[3] BY <2>2, SMTT(30)
+  <2>4. Len(c) >= 1 /\ c[1] = 249 BY <2>3, <1>4, SMTT(30)
+  <2>5. NDec(c) = NOk(2288 + c[2] * 256 + c[3], 3) BY <1>0, <2>3, <2>4, Dec3, SMTT(30)
+  <2>6. 2288 + c[2] * 256 + c[3] = 2288 + b[2] * 256 + b[3] BY <2>3, SMTT(30)
+  <2> QED BY <2>1, <2>5, <2>6, SMTT(30)
+<1>5. CASE Len(b) >= 1 /\ b[1] = 250
+  <2>a. Len(b) >= 4
+    <3>1. CASE Len(b) < 4
+      <4>1. NDec(b) = ErrTrunc(4) BY <1>5, <3>1, Dec4, SMTT(30)
+      <4> QED BY <4>1, Fields, SMTT(30)
+    <3> QED BY <1>0, <3>1, SMTT(30)
+  <2>1. NDec(b) = NOk(b[2] * 65536 + b[3] * 256 + b[4], 4) BY <1>0, <1>5, <2>a, Dec4, SMTT(30)
+  <2>2. NDec(b).n = 4 BY <2>1, Fields, SMTT(30)
+  <2>3. Len(c) >= 4 /\ c[1] = b[1] /\ c[2] = b[2] /\ c[3] = b[3] /\ c[4] = b[4] BY <2>2, SMTT(30)
+  <2>4. Len(c) >= 1 /\ c[1] = 250 BY <2>3, <1>5, SMTT(30)
+  <2>5. NDec(c) = NOk(c[2] * 65536 + c[3] * 256 + c[4], 4) BY <1>0, <2>3, <2>4, Dec4, SMTT(30)
+  <2>6. c[2] * 65536 + c[3] * 256 + c[4] = b[2] * 65536 + b[3] * 256 + b[4] BY <2>3, SMTT(30)
+  <2> QED BY <2>1, <2>5, <2>6, SMTT(30)
+<1>6. CASE Len(b) >= 1 /\ b[1] = 251
+  <2>a. Len(b) >= 5
+    <3>1. CASE Len(b) < 5
+      <4>1. NDec(b) = ErrTrunc(5) BY <1>6, <3>1, Dec5, SMTT(30)
+      <4> QED BY <4>1, Fields, SMTT(30)
+    <3> QED BY <1>0, <3>1, SMTT(30)
+  <2>1. NDec(b) = NOk(b[2] * 16777216 + b[3] * 65536 + b[4] * 256 + b[5], 5) BY <1>0, <1>6, <2>a, Dec5, SMTT(30)
+  <2>2. NDec(b).n = 5 BY <2>1, Fields, SMTT(30)
+  <2>3. Len(c) >= 5 /\ c[1] = b[1] /\ c[2] = b[2] /\ c[3] = b[3] /\ c[4] = b[4] /\ c[5] = b[5] BY <2>2, SMTT(30)
+  <2>4. Len(c) >= 1 /\ c[1] = 251 BY <2>3, <1>6, SMTT(30)
+  <2>5. NDec(c) = NOk(c[2] * 16777216 + c[3] * 65536 + c[4] * 256 + c[5], 5) BY <1>0, <2>3, <2>4, Dec5, SMTT(30)
+  <2>6. c[2] * 16777216 + c[3] * 65536 + c[4] * 256 + c[5] = b[2] * 16777216 + b[3] * 65536 + b[4] * 256 + b[5] BY <2>3, SMTT(30)
+  <2> QED BY <2>1, <2>5, <2>6, SMTT(30)
+<1>7. CASE Len(b) >= 1 /\ b[1] = 255
+  <2>a. Len(b) >= 9
+    <3>1. CASE Len(b) < 9
+      <4>1. NDec(b) = ErrTrunc(9) BY <1>7, <3>1, Dec9, SMTT(30)
+      <4> QED BY <4>1, Fields, SMTT(30)
+    <3> QED BY <1>0, <3>1, SMTT(30)
+  <2>1. NDec(b) = NOk(b[2] * 72057594037927936 + b[3] * 281474976710656 + b[4] * 1099511627776 + b[5] * 4294967296 + b[6] * 16777216 + b[7] * 65536 + b[8] * 256 + b[9], 9) BY <1>0, <1>7, <2>a, Dec9, SMTT(30)
+  <2>2. NDec(b).n = 9 BY <2>1, Fields, SMTT(30)
+  <2>3. Len(c) >= 9 /\ c[1] = b[1] /\ c[2] = b[2] /\ c[3] = b[3] /\ c[4] = b[4] /\ c[5] = b[5] /\ c[6] = b[6] /\ c[7] = b[7] /\ c[8] = b[8] /\ c[9] = b[9] BY <2>2, SMTT(30)
+  <2>4. Len(c) >= 1 /\ c[1] = 255 BY <2>3, <1>7, SMTT(30)
+  <2>5. NDec(c) = NOk(c[2] * 72057594037927936 + c[3] * 281474976710656 + c[4] * 1099511627776 + c[5] * 4294967296 + c[6] * 16777216 + c[7] * 65536 + c[8] * 256 + c[9], 9) BY <1>0, <2>3, <2>4, Dec9, SMTT(30)
+  <2>6. c[2] * 72057594037927936 + c[3] * 281474976710656 + c[4] * 1099511627776 + c[5] * 4294967296 + c[6] * 16777216 + c[7] * 65536 + c[8] * 256 + c[9] = b[2] * 72057594037927936 + b[3] * 281474976710656 + b[4] * 1099511627776 + b[5] * 4294967296 + b[6] * 16777216 + b[7] * 65536 + b[8] * 256 + b[9] BY <2>3, SMTT(30)
+  <2> QED BY <2>1, <2>5, <2>6, SMTT(30)
+<1>9. \/ Len(b) = 0 \/ (Len(b) >= 1 /\ b[1] <= 240) \/ (Len(b) >= 1 /\ b[1] >= 241 /\ b[1] <= 248)
+      \/ (Len(b) >= 1 /\ b[1] = 249) \/ (Len(b) >= 1 /\ b[1] = 250) \/ (Len(b) >= 1 /\ b[1] = 251)
+      \/ (Len(b) >= 1 /\ b[1] = 255) \/ (Len(b) >= 1 /\ b[1] >= 252 /\ b[1] <= 254)
+  BY <1>0, SMTT(30) DEF Byte
+<1> QED BY <1>1, <1>2, <1>3, <1>4, <1>5, <1>6, <1>7, <1>8, <1>9, SMTT(30)
+
+(* ---------------------------------------------------------------- Part 3 *)
+(* The digit form of spec/Varint.tla (what TLC evaluates) computes the same function.               *)
+LEMMA U64Shape == \A d \in U64 : /\ d[1] \in D16 /\ d[2] \in D16 /\ d[3] \in D16 /\ d[4] \in D16
+                                 /\ d = <<d[1], d[2], d[3], d[4]>>
+  BY SMTT(30) DEF U64
+
+LEMMA DivModUnique == \A q \in Nat, r \in 0..255 : ((q * 256) + r) \div 256 = q /\ ((q * 256) + r) % 256 = r
+  BY SMTT(30)
+
+LEMMA DU16 == \A q \in Nat, r \in 0..65535 : ((q * 65536) + r) \div 65536 = q /\ ((q * 65536) + r) % 65536 = r
+  BY SMTT(30)
+LEMMA DU32 == \A q \in Nat, r \in 0..4294967295 : ((q * 4294967296) + r) \div 4294967296 = q
+  BY SMTT(30)
+LEMMA DU48 == \A q \in Nat, r \in 0..281474976710655 : ((q * 281474976710656) + r) \div 281474976710656 = q
+  BY SMTT(30)
+LEMMA DivRange16 == \A e \in 0..65535 : (e \div 256) \in 0..255
+  BY SMTT(30)
+LEMMA DivLow == \A h \in Nat, e \in 0..65535 : ((h * 65536) + e) \div 256 = (h * 256) + (e \div 256)
+  BY SMTT(30)
+LEMMA ModByte == \A h \in Nat, e \in 0..255 : ((h * 256) + e) % 256 = e
+  BY SMTT(30)
+LEMMA ModLow == \A h \in Nat, e \in 0..65535 : ((h * 65536) + e) % 256 = e % 256
+<1> TAKE h \in Nat, e \in 0..65535
+<1> DEFINE t == (h * 65536) + e
+<1>1. t \in Nat /\ e \in Nat BY SMTT(30)
+<1>2. t = ((t \div 256) * 256) + (t % 256) BY <1>1, Step, SMTT(30)
+<1>3. e = ((e \div 256) * 256) + (e % 256) BY <1>1, Step, SMTT(30)
+<1>4. t \div 256 = (h * 256) + (e \div 256) BY DivLow, SMTT(30)
+<1>5. t = (h * 65536) + e OBVIOUS
+<1> HIDE DEF t
+<1>6. (t % 256) = (e % 256) BY <1>2, <1>3, <1>4, <1>5, SMTT(30)
+<1> QED BY <1>6 DEF t
+(* (h*65536 + e) \div 256 % 256 for a 16-bit e is the high byte of e *)
+LEMMA HighByte == \A h \in Nat, e \in 0..65535 : (((h * 65536) + e) \div 256) % 256 = e \div 256
+<1> TAKE h \in Nat, e \in 0..65535
+<1>1. ((h * 65536) + e) \div 256 = (h * 256) + (e \div 256) BY DivLow, SMTT(30)
+<1>2. (e \div 256) \in 0..255 BY DivRange16, SMTT(30)
+<1> DEFINE g == e \div 256
+<1> HIDE DEF g
+<1>3. ((h * 256) + g) % 256 = g BY <1>2, ModByte, SMTT(30) DEF g
+<1> QED BY <1>1, <1>3, SMTT(30) DEF g
+
+(* the digits are the base-2^16 digits of Val(d), and the bytes of each digit are the bytes of Val(d) *)
+LEMMA ValDigits == \A d \in U64 :
+   /\ Val(d) \in Nat
+   /\ Val(d) \div 281474976710656 = d[1]
+   /\ Val(d) \div 4294967296 = (d[1] * 65536) + d[2]
+   /\ Val(d) \div 65536 = (d[1] * 4294967296) + (d[2] * 65536) + d[3]
+   /\ Val(d) % 65536 = d[4]
+<1> TAKE d \in U64
+<1> DEFINE a == d[1]
+<1> DEFINE b == d[2]
+<1> DEFINE c == d[3]
+<1> DEFINE e == d[4]
+<1>1. a \in 0..65535 /\ b \in 0..65535 /\ c \in 0..65535 /\ e \in 0..65535 BY U64Shape, SMTT(30) DEF D16
+<1>2. Val(d) = a * 281474976710656 + b * 4294967296 + c * 65536 + e BY SMTT(30) DEF Val
+<1> HIDE DEF a, b, c, e
+<1> DEFINE r48 == b * 4294967296 + c * 65536 + e
+<1> DEFINE r32 == c * 65536 + e
+<1> DEFINE q32 == (a * 65536) + b
+<1> DEFINE q16 == (a * 4294967296) + (b * 65536) + c
+<1> DEFINE t == a * 281474976710656 + b * 4294967296 + c * 65536 + e
+<1>3. /\ r48 \in 0..281474976710655 /\ r32 \in 0..4294967295 /\ q32 \in Nat /\ q16 \in Nat /\ a \in Nat
+      /\ e \in 0..65535 /\ t \in Nat
+  BY <1>1, SMTT(30)
+<1>4. t = (a * 281474976710656) + r48 /\ t = (q32 * 4294967296) + r32 /\ t = (q16 * 65536) + e
+  BY <1>1, SMTT(30)
+<1> HIDE DEF r48, r32, q32, q16, t
+<1>5. ((a * 281474976710656) + r48) \div 281474976710656 = a BY <1>3, DU48, SMTT(30)
+<1>6. ((q32 * 4294967296) + r32) \div 4294967296 = q32 BY <1>3, DU32, SMTT(30)
+<1>7. ((q16 * 65536) + e) \div 65536 = q16 /\ ((q16 * 65536) + e) % 65536 = e BY <1>3, DU16, SMTT(30)
+<1>8. t \in Nat /\ t \div 281474976710656 = a /\ t \div 4294967296 = q32 /\ t \div 65536 = q16 /\ t % 65536 = e
+  BY <1>3, <1>4, <1>5, <1>6, <1>7, SMTT(30)
+<1> QED BY <1>2, <1>8, SMTT(30) DEF a, b, c, e, t, q32, q16
+
+LEMMA ValInU64 == \A d \in U64 : Val(d) \in NU64
+<1> TAKE d \in U64
+<1>1. Val(d) \in Nat /\ Val(d) \div 4294967296 = (d[1] * 65536) + d[2] BY ValDigits
+<1>2. d[1] \in 0..65535 /\ d[2] \in 0..65535 BY U64Shape, SMTT(30) DEF D16
+<1>3. (d[1] * 65536) + d[2] <= 4294967295 BY <1>2, SMTT(30)
+<1> QED BY <1>1, <1>3, SMTT(30) DEF NU64
+
+THEOREM ValInjective == \A d, e \in U64 : Val(d) = Val(e) => d = e
+<1> TAKE d, e \in U64
+<1> HAVE Val(d) = Val(e)
+<1>1. d[1] = e[1] BY ValDigits, SMTT(30)
+<1>2. d[4] = e[4] BY ValDigits, SMTT(30)
+<1>3. (d[1] * 65536) + d[2] = (e[1] * 65536) + e[2] BY ValDigits, SMTT(30)
+<1>4. (d[1] * 4294967296) + (d[2] * 65536) + d[3] = (e[1] * 4294967296) + (e[2] * 65536) + e[3] BY ValDigits, SMTT(30)
+<1>5. /\ d[1] \in 0..65535 /\ d[2] \in 0..65535 /\ d[3] \in 0..65535 /\ d[4] \in 0..65535
+      /\ e[1] \in 0..65535 /\ e[2] \in 0..65535 /\ e[3] \in 0..65535 /\ e[4] \in 0..65535
+  BY U64Shape, SMTT(30) DEF D16
+<1>6. d[2] = e[2] BY <1>1, <1>3, <1>5, SMTT(30)
+<1>7. d[3] = e[3] BY <1>1, <1>6, <1>4, <1>5, SMTT(30)
+<1>8. d = <<d[1], d[2], d[3], d[4]>> /\ e = <<e[1], e[2], e[3], e[4]>> BY U64Shape, SMTT(30)
+<1> QED BY <1>1, <1>2, <1>6, <1>7, <1>8, SMTT(30)
+
+(* the case conditions of the digit form are the comparisons of varint.rs *)
+LEMMA CondRefines == \A d \in U64 :
+   /\ (Fits32(d) <=> Val(d) <= 4294967295)
+   /\ (Small(d) <=> Val(d) <= 16777215)
+   /\ (Small(d) => Val(d) = Low(d))
+   /\ (Leq(d, 240) <=> Val(d) <= 240)
+   /\ (Leq(d, 2287) <=> Val(d) <= 2287)
+   /\ (Leq(d, 67823) <=> Val(d) <= 67823)
+<1> TAKE d \in U64
+<1> DEFINE a == d[1]
+<1> DEFINE b == d[2]
+<1> DEFINE c == d[3]
+<1> DEFINE e == d[4]
+<1>1. a \in 0..65535 /\ b \in 0..65535 /\ c \in 0..65535 /\ e \in 0..65535 BY U64Shape, SMTT(30) DEF D16
+<1>2. Val(d) = a * 281474976710656 + b * 4294967296 + c * 65536 + e BY SMTT(30) DEF Val
+<1>3. Fits32(d) <=> (a = 0 /\ b = 0) BY SMTT(30) DEF Fits32
+<1>4. Small(d) <=> (a = 0 /\ b = 0 /\ c <= 255) BY SMTT(30) DEF Small, Fits32
+<1>5. Low(d) = (c * 65536) + e BY SMTT(30) DEF Low
+<1> HIDE DEF a, b, c, e
+<1>6. (a = 0 /\ b = 0) <=> (a * 281474976710656 + b * 4294967296 + c * 65536 + e <= 4294967295) BY <1>1, SMTT(30)
+<1>7. (a = 0 /\ b = 0 /\ c <= 255) <=> (a * 281474976710656 + b * 4294967296 + c * 65536 + e <= 16777215) BY <1>1, SMTT(30)
+<1>8. (a = 0 /\ b = 0) => (a * 281474976710656 + b * 4294967296 + c * 65536 + e = (c * 65536) + e) BY <1>1, SMTT(30)
+<1>9. Fits32(d) <=> Val(d) <= 4294967295 BY <1>2, <1>3, <1>6, SMTT(30)
+<1>10. Small(d) <=> Val(d) <= 16777215 BY <1>2, <1>4, <1>7, SMTT(30)
+<1>11. Small(d) => Val(d) = Low(d) BY <1>2, <1>4, <1>5, <1>8, SMTT(30)
+<1>12. \A k \in {240, 2287, 67823} : Leq(d, k) <=> Val(d) <= k
+  <2> TAKE k \in {240, 2287, 67823}
+  <2>1. Leq(d, k) <=> (Small(d) /\ Low(d) <= k) BY SMTT(30) DEF Leq
+  <2>2. Val(d) <= k => Val(d) <= 16777215 BY <1>1, <1>2, SMTT(30)
+  <2> QED BY <2>1, <2>2, <1>10, <1>11, SMTT(30)
+<1> QED BY <1>9, <1>10, <1>11, <1>12, SMTT(30)
+
+(* bytes of Val(d) in terms of the digits *)
+LEMMA ValBytes == \A d \in U64 :
+   /\ (Val(d) \div 72057594037927936) % 256 = d[1] \div 256
+   /\ (Val(d) \div 281474976710656) % 256 = d[1] % 256
+   /\ (Val(d) \div 1099511627776) % 256 = d[2] \div 256
+   /\ (Val(d) \div 4294967296) % 256 = d[2] % 256
+   /\ (Val(d) \div 16777216) % 256 = d[3] \div 256
+   /\ (Val(d) \div 65536) % 256 = d[3] % 256
+   /\ (Val(d) \div 256) % 256 = d[4] \div 256
+   /\ Val(d) % 256 = d[4] % 256
+<1> TAKE d \in U64
+<1> DEFINE v == Val(d)
+<1> DEFINE a == d[1]
+<1> DEFINE b == d[2]
+<1> DEFINE c == d[3]
+<1> DEFINE e == d[4]
+<1>1. a \in 0..65535 /\ b \in 0..65535 /\ c \in 0..65535 /\ e \in 0..65535 BY U64Shape, SMTT(30) DEF D16
+<1>2. /\ v \in Nat /\ v \div 281474976710656 = a /\ v \div 4294967296 = (a * 65536) + b
+      /\ v \div 65536 = (a * 4294967296) + (b * 65536) + c /\ v % 65536 = e
+  BY ValDigits
+<1>3. v \div 72057594037927936 = (v \div 281474976710656) \div 256 BY <1>2, DD6, SMTT(30)
+<1>4. v \div 1099511627776 = (v \div 4294967296) \div 256 BY <1>2, DD4, SMTT(30)
+<1>5. v \div 16777216 = (v \div 65536) \div 256 BY <1>2, DD2, SMTT(30)
+<1> HIDE DEF v, a, b, c, e
+<1>6. (a \div 256) % 256 = a \div 256 BY <1>1, SMTT(30)
+<1>7. (((a * 65536) + b) \div 256) % 256 = b \div 256 BY <1>1, HighByte, SMTT(30)
+<1>8. ((a * 65536) + b) % 256 = b % 256 BY <1>1, ModLow, SMTT(30)
+<1> DEFINE h3 == (a * 65536) + b
+<1>9a. h3 \in Nat /\ (a * 4294967296) + (b * 65536) + c = (h3 * 65536) + c BY <1>1, SMTT(30)
+<1>9. (((a * 4294967296) + (b * 65536) + c) \div 256) % 256 = c \div 256
+  <2> HIDE DEF h3
+  <2>1. (((h3 * 65536) + c) \div 256) % 256 = c \div 256 BY <1>1, <1>9a, HighByte, SMTT(30)
+  <2> QED BY <2>1, <1>9a, SMTT(30)
+<1>10. ((a * 4294967296) + (b * 65536) + c) % 256 = c % 256
+  <2> HIDE DEF h3
+  <2>1. ((h3 * 65536) + c) % 256 = c % 256 BY <1>1, <1>9a, ModLow, SMTT(30)
+  <2> QED BY <2>1, <1>9a, SMTT(30)
+<1>11. (v \div 256) % 256 = e \div 256 /\ v % 256 = e % 256
+  <2> DEFINE h == (a * 4294967296) + (b * 65536) + c
+  <2>1. v = ((v \div 65536) * 65536) + (v % 65536) BY <1>2, SMTT(30)
+  <2>2. h \in Nat BY <1>1, SMTT(30)
+  <2>3. v = (h * 65536) + e BY <2>1, <1>2, SMTT(30)
+  <2> HIDE DEF h
+  <2>4. (((h * 65536) + e) \div 256) % 256 = e \div 256 BY <2>2, <1>1, HighByte, SMTT(30)
+  <2>5. ((h * 65536) + e) % 256 = e % 256 BY <2>2, <1>1, ModLow, SMTT(30)
+  <2> QED BY <2>3, <2>4, <2>5, SMTT(30)
+<1> QED BY <1>2, <1>3, <1>4, <1>5, <1>6, <1>7, <1>8, <1>9, <1>10, <1>11, SMTT(30) DEF v, a, b, c, e
+
+(* ------------------------------------------------------------------------------------------------ *)
+THEOREM EncRefines == \A d \in U64 : Enc(d) = NEnc(Val(d)) /\ LenOf(d) = NLenOf(Val(d))
+<1> TAKE d \in U64
+<1> DEFINE v == Val(d)
+<1>0. /\ v \in Nat
+      /\ (Fits32(d) <=> v <= 4294967295) /\ (Small(d) <=> v <= 16777215) /\ (Small(d) => v = Low(d))
+      /\ (Leq(d, 240) <=> v <= 240) /\ (Leq(d, 2287) <=> v <= 2287) /\ (Leq(d, 67823) <=> v <= 67823)
+  BY CondRefines, ValDigits, SMTT(30)
+<1>0a. (Leq(d, 240) => Small(d)) /\ (Leq(d, 2287) => Small(d)) /\ (Leq(d, 67823) => Small(d)) BY SMTT(30) DEF Leq
+<1>0b. d[1] \in 0..65535 /\ d[2] \in 0..65535 /\ d[3] \in 0..65535 /\ d[4] \in 0..65535 BY U64Shape, SMTT(30) DEF D16
+<1>b. /\ (v \div 72057594037927936) % 256 = d[1] \div 256
+      /\ (v \div 281474976710656) % 256 = d[1] % 256
+      /\ (v \div 1099511627776) % 256 = d[2] \div 256
+      /\ (v \div 4294967296) % 256 = d[2] % 256
+      /\ (v \div 16777216) % 256 = d[3] \div 256
+      /\ (v \div 65536) % 256 = d[3] % 256
+      /\ (v \div 256) % 256 = d[4] \div 256
+      /\ v % 256 = d[4] % 256
+  BY ValBytes
+<1>c. ((d[3] \div 256) % 256) = d[3] \div 256 /\ ((d[4] \div 256) % 256) = d[4] \div 256
+  <2>1. (d[3] \div 256) \in 0..255 /\ (d[4] \div 256) \in 0..255 BY <1>0b, DivRange16, SMTT(30)
+  <2> QED BY <2>1, ModSmall, SMTT(30)
+<1> HIDE DEF v
+<1>L. LenOf(d) = NLenOf(v) BY <1>0, SMTT(30) DEF LenOf, NLenOf
+<1>1. CASE Leq(d, 240)
+  <2>1. Enc(d) = << Low(d) >> BY <1>1, SMTT(30) DEF Enc
+  <2>2. NEnc(v) = << v >> BY <1>0, <1>1, Enc1, SMTT(30)
+  <2> QED BY <2>1, <2>2, <1>0, <1>0a, <1>1, SMTT(30)
+<1>2. CASE ~Leq(d, 240) /\ Leq(d, 2287)
+  <2>1. Enc(d) = << (((Low(d) - 240) \div 256) + 241) % 256, (Low(d) - 240) % 256 >> BY <1>2, SMTT(30) DEF Enc
+  <2>2. NEnc(v) = << (((v - 240) \div 256) + 241) % 256, (v - 240) % 256 >> BY <1>0, <1>2, Enc2, SMTT(30)
+  <2> QED BY <2>1, <2>2, <1>0, <1>0a, <1>2, SMTT(30)
+<1>3. CASE ~Leq(d, 240) /\ ~Leq(d, 2287) /\ Leq(d, 67823)
+  <2>1. Enc(d) = << 249, ((Low(d) - 2288) \div 256) % 256, (Low(d) - 2288) % 256 >> BY <1>3, SMTT(30) DEF Enc
+  <2>2. NEnc(v) = << 249, ((v - 2288) \div 256) % 256, (v - 2288) % 256 >> BY <1>0, <1>3, Enc3, SMTT(30)
+  <2> QED BY <2>1, <2>2, <1>0, <1>0a, <1>3, SMTT(30)
+<1>4. CASE ~Leq(d, 240) /\ ~Leq(d, 2287) /\ ~Leq(d, 67823) /\ Small(d)
+  <2>1. Enc(d) = << 250, (Low(d) \div 65536) % 256, (Low(d) \div 256) % 256, Low(d) % 256 >> BY <1>4, SMTT(30) DEF Enc
+  <2>2. NEnc(v) = << 250, (v \div 65536) % 256, (v \div 256) % 256, v % 256 >> BY <1>0, <1>4, Enc4, SMTT(30)
+  <2> QED BY <2>1, <2>2, <1>0, <1>4, SMTT(30)
+<1>5. CASE ~Leq(d, 240) /\ ~Leq(d, 2287) /\ ~Leq(d, 67823) /\ ~Small(d) /\ Fits32(d)
+  <2>1. Enc(d) = << 251, (d[3] \div 256) % 256, d[3] % 256, (d[4] \div 256) % 256, d[4] % 256 >> BY <1>5, SMTT(30) DEF Enc
+  <2>2. NEnc(v) = << 251, (v \div 16777216) % 256, (v \div 65536) % 256, (v \div 256) % 256, v % 256 >>
+    BY <1>0, <1>5, Enc5, SMTT(30)
+  <2> QED BY <2>1, <2>2, <1>b, <1>c, SMTT(30)
+<1>6. CASE ~Leq(d, 240) /\ ~Leq(d, 2287) /\ ~Leq(d, 67823) /\ ~Small(d) /\ ~Fits32(d)
+  <2>1. Enc(d) = << 255, d[1] \div 256, d[1] % 256, d[2] \div 256, d[2] % 256,
+                         d[3] \div 256, d[3] % 256, d[4] \div 256, d[4] % 256 >> BY <1>6, SMTT(30) DEF Enc
+  <2>2. NEnc(v) = << 255, (v \div 72057594037927936) % 256, (v \div 281474976710656) % 256,
+                          (v \div 1099511627776) % 256,     (v \div 4294967296) % 256,
+                          (v \div 16777216) % 256,          (v \div 65536) % 256,
+                          (v \div 256) % 256,               v % 256 >>
+    BY <1>0, <1>6, Enc9, SMTT(30)
+  <2> QED BY <2>1, <2>2, <1>b, SMTT(30)
+<1> QED BY <1>L, <1>1, <1>2, <1>3, <1>4, <1>5, <1>6, SMTT(30) DEF v
+
+(* ------------------------------------------------------------------------------------------------ *)
+(* digit-form decoder, by length and marker (same shape lemmas as for NDec) *)
+LEMMA DDecE == \A b \in Seq(Byte) : Len(b) = 0 => Dec(b) = ErrEmpty
+  BY SMTT(60) DEF Dec, Byte
+LEMMA DDec1 == \A b \in Seq(Byte) : (Len(b) >= 1 /\ b[1] <= 240) => Dec(b) = Ok(FromLow(b[1]), 1)
+  BY SMTT(60) DEF Dec, Byte
+LEMMA DDec2 == \A b \in Seq(Byte) : (Len(b) >= 1 /\ b[1] >= 241 /\ b[1] <= 248) =>
+                 Dec(b) = IF Len(b) < 2 THEN ErrTrunc(2) ELSE Ok(FromLow(240 + (b[1] - 241) * 256 + b[2]), 2)
+  BY SMTT(60) DEF Dec, Byte
+LEMMA DDec3 == \A b \in Seq(Byte) : (Len(b) >= 1 /\ b[1] = 249) =>
+                 Dec(b) = IF Len(b) < 3 THEN ErrTrunc(3) ELSE Ok(FromLow(2288 + b[2] * 256 + b[3]), 3)
+  BY SMTT(60) DEF Dec, Byte
+LEMMA DDec4 == \A b \in Seq(Byte) : (Len(b) >= 1 /\ b[1] = 250) =>
+                 Dec(b) = IF Len(b) < 4 THEN ErrTrunc(4) ELSE Ok(FromLow(b[2] * 65536 + b[3] * 256 + b[4]), 4)
+  BY SMTT(60) DEF Dec, Byte
+LEMMA DDec5 == \A b \in Seq(Byte) : (Len(b) >= 1 /\ b[1] = 251) =>
+                 Dec(b) = IF Len(b) < 5 THEN ErrTrunc(5)
+                          ELSE Ok(<<0, 0, b[2] * 256 + b[3], b[4] * 256 + b[5]>>, 5)
+  BY SMTT(60) DEF Dec, Byte
+LEMMA DDec9 == \A b \in Seq(Byte) : (Len(b) >= 1 /\ b[1] = 255) =>
+                 Dec(b) = IF Len(b) < 9 THEN ErrTrunc(9)
+                          ELSE Ok(<<b[2] * 256 + b[3], b[4] * 256 + b[5], b[6] * 256 + b[7], b[8] * 256 + b[9]>>, 9)
+  BY SMTT(60) DEF Dec, Byte
+LEMMA DDecM == \A b \in Seq(Byte) : (Len(b) >= 1 /\ b[1] >= 252 /\ b[1] <= 254) => Dec(b) = ErrMarker(b[1])
+  BY SMTT(60) DEF Dec, Byte
+
+LEMMA FromLowOK == \A x \in Nat : x <= 4294967295 => FromLow(x) \in U64 /\ Val(FromLow(x)) = x
+<1> TAKE x \in Nat
+<1> HAVE x <= 4294967295
+<1> DEFINE q == x \div 65536
+<1> DEFINE r == x % 65536
+<1>1. q \in 0..65535 /\ r \in 0..65535 /\ x = (q * 65536) + r BY SMTT(30)
+<1>2. FromLow(x) = <<0, 0, q, r>> BY SMTT(30) DEF FromLow
+<1> HIDE DEF q, r
+<1>3. <<0, 0, q, r>> \in U64 BY <1>1, SMTT(30) DEF U64, D16
+<1>4. Val(<<0, 0, q, r>>) = (q * 65536) + r BY <1>1, SMTT(30) DEF Val
+<1> QED BY <1>1, <1>2, <1>3, <1>4, SMTT(30)
+
+LEMMA Pair16 == \A x, y \in Byte : ((x * 256) + y) \in D16
+  BY SMTT(30) DEF Byte, D16
+
+DecRel(b) == \/ Dec(b) = NDec(b) /\ NDec(b).ok = FALSE
+             \/ \E dd \in U64, n \in {1, 2, 3, 4, 5, 9} : Dec(b) = Ok(dd, n) /\ NDec(b) = NOk(Val(dd), n)
+
+THEOREM DecRefines == \A b \in Seq(Byte) : DecRel(b)
+<1> TAKE b \in Seq(Byte)
+<1>0. Len(b) \in Nat /\ \A i \in 1..Len(b) : b[i] \in Byte BY SMTT(30)
+<1>1. CASE Len(b) = 0
+  <2>1. NDec(b) = ErrEmpty /\ Dec(b) = ErrEmpty BY <1>1, DecE, DDecE, SMTT(30)
+  <2> QED BY <2>1, Fields, SMTT(30) DEF DecRel
+<1>8. CASE Len(b) >= 1 /\ b[1] >= 252 /\ b[1] <= 254
+  <2>1. NDec(b) = ErrMarker(b[1]) /\ Dec(b) = ErrMarker(b[1]) BY <1>8, DecM, DDecM, SMTT(30)
+  <2> QED BY <2>1, Fields, SMTT(30) DEF DecRel
+<1>2. CASE Len(b) >= 1 /\ b[1] <= 240
+  <2>a. b[1] \in Byte BY <1>0, <1>2, SMTT(30)
+  <2>b. NDec(b) = NOk(b[1], 1) BY <1>0, <1>2, Dec1, SMTT(30)
+  <2>c. Dec(b) = Ok(FromLow(b[1]), 1) BY <1>0, <1>2, DDec1, SMTT(30)
+  <2>d. (b[1]) \in Nat /\ (b[1]) <= 4294967295 BY <2>a, <1>2, SMTT(30) DEF Byte
+  <2>e. FromLow(b[1]) \in U64 /\ Val(FromLow(b[1])) = b[1] BY <2>d, FromLowOK, SMTT(30)
+  <2> QED BY <2>b, <2>c, <2>e, SMTT(30) DEF DecRel
+<1>3. CASE Len(b) >= 1 /\ b[1] >= 241 /\ b[1] <= 248
+  <2>1. CASE Len(b) < 2
+    <3>1. NDec(b) = ErrTrunc(2) /\ Dec(b) = ErrTrunc(2) BY <1>3, <2>1, Dec2, DDec2, SMTT(30)
+    <3> QED BY <3>1, Fields, SMTT(30) DEF DecRel
+  <2>2. CASE Len(b) >= 2
+    <3>a. b[1] \in Byte /\ b[2] \in Byte BY <1>0, <1>3, <2>2, SMTT(30)
+    <3>b. NDec(b) = NOk(240 + (b[1] - 241) * 256 + b[2], 2) BY <1>0, <1>3, <2>2, Dec2, SMTT(30)
+    <3>c. Dec(b) = Ok(FromLow(240 + (b[1] - 241) * 256 + b[2]), 2) BY <1>0, <1>3, <2>2, DDec2, SMTT(30)
+    <3>d. (240 + (b[1] - 241) * 256 + b[2]) \in Nat /\ (240 + (b[1] - 241) * 256 + b[2]) <= 4294967295 BY <3>a, <1>3, <2>2, SMTT(30) DEF Byte
+    <3>e. FromLow(240 + (b[1] - 241) * 256 + b[2]) \in U64 /\ Val(FromLow(240 + (b[1] - 241) * 256 + b[2])) = 240 + (b[1] - 241) * 256 + b[2] BY <3>d, FromLowOK, SMTT(30)
+    <3> QED BY <3>b, <3>c, <3>e, SMTT(30) DEF DecRel
+  <2> QED BY <1>0, <2>1, <2>2, SMTT(30)
+<1>4. CASE Len(b) >= 1 /\ b[1] = 249
+  <2>1. CASE Len(b) < 3
+    <3>1. NDec(b) = ErrTrunc(3) /\ Dec(b) = ErrTrunc(3) BY <1>4, <2>1, Dec3, DDec3, SMTT(30)
+    <3> QED BY <3>1, Fields, SMTT(30) DEF DecRel
+  <2>2. CASE Len(b) >= 3
+    <3>a. b[1] \in Byte /\ b[2] \in Byte /\ b[3] \in Byte BY <1>0, <1>4, <2>2, SMTT(30)
+    <3>b. NDec(b) = NOk(2288 + b[2] * 256 + b[3], 3) BY <1>0, <1>4, <2>2, Dec3, SMTT(30)
+    <3>c. Dec(b) = Ok(FromLow(2288 + b[2] * 256 + b[3]), 3) BY <1>0, <1>4, <2>2, DDec3, SMTT(30)
+    <3>d. (2288 + b[2] * 256 + b[3]) \in Nat /\ (2288 + b[2] * 256 + b[3]) <= 4294967295 BY <3>a, <1>4, <2>2, SMTT(30) DEF Byte
+    <3>e. FromLow(2288 + b[2] * 256 + b[3]) \in U64 /\ Val(FromLow(2288 + b[2] * 256 + b[3])) = 2288 + b[2] * 256 + b[3] BY <3>d, FromLowOK, SMTT(30)
+    <3> QED BY <3>b, <3>c, <3>e, SMTT(30) DEF DecRel
+  <2> QED BY <1>0, <2>1, <2>2, SMTT(30)
+<1>5. CASE Len(b) >= 1 /\ b[1] = 250
+  <2>1. CASE Len(b) < 4
+    <3>1. NDec(b) = ErrTrunc(4) /\ Dec(b) = ErrTrunc(4) BY <1>5, <2>1, Dec4, DDec4, SMTT(30)
+    <3> QED BY <3>1, Fields, SMTT(30) DEF DecRel
+  <2>2. CASE Len(b) >= 4
+    <3>a. b[1] \in Byte /\ b[2] \in Byte /\ b[3] \in Byte /\ b[4] \in Byte BY <1>0, <1>5, <2>2, SMTT(30)
+    <3>b. NDec(b) = NOk(b[2] * 65536 + b[3] * 256 + b[4], 4) BY <1>0, <1>5, <2>2, Dec4, SMTT(30)
+    <3>c. Dec(b) = Ok(FromLow(b[2] * 65536 + b[3] * 256 + b[4]), 4) BY <1>0, <1>5, <2>2, DDec4, SMTT(30)
+    <3>d. (b[2] * 65536 + b[3] * 256 + b[4]) \in Nat /\ (b[2] * 65536 + b[3] * 256 + b[4]) <= 4294967295 BY <3>a, <1>5, <2>2, SMTT(30) DEF Byte
+    <3>e. FromLow(b[2] * 65536 + b[3] * 256 + b[4]) \in U64 /\ Val(FromLow(b[2] * 65536 + b[3] * 256 + b[4])) = b[2] * 65536 + b[3] * 256 + b[4] BY <3>d, FromLowOK, SMTT(30)
+    <3> QED BY <3>b, <3>c, <3>e, SMTT(30) DEF DecRel
+  <2> QED BY <1>0, <2>1, <2>2, SMTT(30)
+<1>6. CASE Len(b) >= 1 /\ b[1] = 251
+  <2>1. CASE Len(b) < 5
+    <3>1. NDec(b) = ErrTrunc(5) /\ Dec(b) = ErrTrunc(5) BY <1>6, <2>1, Dec5, DDec5, SMTT(30)
+    <3> QED BY <3>1, Fields, SMTT(30) DEF DecRel
+  <2>2. CASE Len(b) >= 5
+    <3>a. b[1] \in Byte /\ b[2] \in Byte /\ b[3] \in Byte /\ b[4] \in Byte /\ b[5] \in Byte BY <1>0, <1>6, <2>2, SMTT(30)
+    <3>b. NDec(b) = NOk(b[2] * 16777216 + b[3] * 65536 + b[4] * 256 + b[5], 5) BY <1>0, <1>6, <2>2, Dec5, SMTT(30)
+    <3>c. Dec(b) = Ok(<<0, 0, b[2] * 256 + b[3], b[4] * 256 + b[5]>>, 5) BY <1>0, <1>6, <2>2, DDec5, SMTT(30)
+    <3>d. ((b[2] * 256) + b[3]) \in D16 /\ ((b[4] * 256) + b[5]) \in D16 /\ 0 \in D16 BY <3>a, Pair16, SMTT(30) DEF D16
+    <3>e. <<0, 0, b[2] * 256 + b[3], b[4] * 256 + b[5]>> \in U64 BY <3>d, SMTT(30) DEF U64
+    <3>f. Val(<<0, 0, b[2] * 256 + b[3], b[4] * 256 + b[5]>>) = b[2] * 16777216 + b[3] * 65536 + b[4] * 256 + b[5] BY <3>a, SMTT(30) DEF Val, Byte
+    <3> QED BY <3>b, <3>c, <3>e, <3>f, SMTT(30) DEF DecRel
+  <2> QED BY <1>0, <2>1, <2>2, SMTT(30)
+<1>7. CASE Len(b) >= 1 /\ b[1] = 255
+  <2>1. CASE Len(b) < 9
+    <3>1. NDec(b) = ErrTrunc(9) /\ Dec(b) = ErrTrunc(9) BY <1>7, <2>1, Dec9, DDec9, SMTT(30)
+    <3> QED BY <3>1, Fields, SMTT(30) DEF DecRel
+  <2>2. CASE Len(b) >= 9
+    <3>a. b[1] \in Byte /\ b[2] \in Byte /\ b[3] \in Byte /\ b[4] \in Byte /\ b[5] \in Byte /\ b[6] \in Byte /\ b[7] \in Byte /\ b[8] \in Byte /\ b[9] \in Byte BY <1>0, <1>7, <2>2, SMTT(30)
+    <3>b. NDec(b) = NOk(b[2] * 72057594037927936 + b[3] * 281474976710656 + b[4] * 1099511627776 + b[5] * 4294967296 + b[6] * 16777216 + b[7] * 65536 + b[8] * 256 + b[9], 9) BY <1>0, <1>7, <2>2, Dec9, SMTT(30)
+    <3>c. Dec(b) = Ok(<<b[2] * 256 + b[3], b[4] * 256 + b[5], b[6] * 256 + b[7], b[8] * 256 + b[9]>>, 9) BY <1>0, <1>7, <2>2, DDec9, SMTT(30)
+    <3>d. ((b[2] * 256) + b[3]) \in D16 /\ ((b[4] * 256) + b[5]) \in D16 /\ ((b[6] * 256) + b[7]) \in D16 /\ ((b[8] * 256) + b[9]) \in D16 BY <3>a, Pair16, SMTT(30)
+    <3>e. <<b[2] * 256 + b[3], b[4] * 256 + b[5], b[6] * 256 + b[7], b[8] * 256 + b[9]>> \in U64 BY <3>d, SMTT(30) DEF U64
+    <3>f. Val(<<b[2] * 256 + b[3], b[4] * 256 + b[5], b[6] * 256 + b[7], b[8] * 256 + b[9]>>) = b[2] * 72057594037927936 + b[3] * 281474976710656 + b[4] * 1099511627776 + b[5] * 4294967296 + b[6] * 16777216 + b[7] * 65536 + b[8] * 256 + b[9] BY <3>a, SMTT(30) DEF Val, Byte
+    <3> QED BY <3>b, <3>c, <3>e, <3>f, SMTT(30) DEF DecRel
+  <2> QED BY <1>0, <2>1, <2>2, SMTT(30)
+<1>9. \/ Len(b) = 0 \/ (Len(b) >= 1 /\ b[1] <= 240) \/ (Len(b) >= 1 /\ b[1] >= 241 /\ b[1] <= 248)
+      \/ (Len(b) >= 1 /\ b[1] = 249) \/ (Len(b) >= 1 /\ b[1] = 250) \/ (Len(b) >= 1 /\ b[1] = 251)
+      \/ (Len(b) >= 1 /\ b[1] = 255) \/ (Len(b) >= 1 /\ b[1] >= 252 /\ b[1] <= 254)
+  <2>1. Len(b) >= 1 => b[1] \in Byte BY <1>0, SMTT(30)
+  <2> QED BY <1>0, <2>1, SMTT(30) DEF Byte
+<1> QED BY <1>1, <1>2, <1>3, <1>4, <1>5, <1>6, <1>7, <1>8, <1>9, SMTT(30)
+
+(* ---- C27 for the digit form that TLC evaluates: all of U64, by refinement ---- *)
+THEOREM DigitRoundTrip == \A d \in U64 : Dec(Enc(d)) = Ok(d, LenOf(d))
+<1> TAKE d \in U64
+<1> DEFINE v == Val(d)
+<1> DEFINE b == NEnc(v)
+<1>1. v \in NU64 BY ValInU64
+<1>2. Enc(d) = b /\ LenOf(d) = NLenOf(v) BY EncRefines
+<1>3. b \in Seq(Byte) /\ NLenOf(v) \in {1, 2, 3, 4, 5, 9} BY <1>1, CanonicalLen
+<1>4. NDec(b) = NOk(v, NLenOf(v)) BY <1>1, RoundTrip
+<1>5. DecRel(b) BY <1>3, DecRefines
+<1> HIDE DEF v, b
+<1>6. NDec(b).ok = TRUE BY <1>4, Fields, SMTT(30)
+<1>7. PICK dd \in U64, n \in {1, 2, 3, 4, 5, 9} : Dec(b) = Ok(dd, n) /\ NDec(b) = NOk(Val(dd), n)
+  BY <1>5, <1>6, SMTT(30) DEF DecRel
+<1>8. Val(dd) = v /\ n = NLenOf(v)
+  <2>1. NOk(Val(dd), n).val = Val(dd) /\ NOk(Val(dd), n).n = n BY Fields, SMTT(30)
+  <2>2. NOk(v, NLenOf(v)).val = v /\ NOk(v, NLenOf(v)).n = NLenOf(v) BY Fields, SMTT(30)
+  <2> QED BY <2>1, <2>2, <1>4, <1>7, SMTT(30)
+<1>9. dd = d BY <1>8, ValInjective, SMTT(30) DEF v
+<1> QED BY <1>2, <1>7, <1>8, <1>9, SMTT(30)
 =============================================================================
